@@ -27,6 +27,13 @@ Proof.
   destruct (over_limits cfg l') eqn:E; intros [H|H]; congruence.
 Qed.
 
+(** per-sender BYTE limit for every history whose transactions all have the same size (then one drop always
+    suffices): after every operation every sender is within NumBytesPerSenderThreshold *)
+Theorem C06_per_sender_bytes_uniform_partial : forall cfg ops s, hist_ok ops -> 0 <= s -> 0 <= numBytesPerSenderThreshold cfg ->
+  (forall t, In t (added_txs ops) -> size t = s) ->
+  forall a, sum_sizes (pool_for_sender (run_pool cfg ops) a) <= numBytesPerSenderThreshold cfg.
+Proof. exact run_pool_bytes_ok_uniform. Qed.
+
 (** the unrestricted byte clause is FALSE of the code (finding F4): same witness as C04_limit_drop_refuted *)
 Theorem C06_per_sender_bytes_refuted :
   exists cfg ops, hist_ok ops /\
@@ -67,6 +74,7 @@ Proof. split; [unfold thresholds_ok; simpl; lia|vm_compute; split; reflexivity].
 
 Print Assumptions C06_per_sender_count.
 Print Assumptions C06_per_sender_bytes_partial.
+Print Assumptions C06_per_sender_bytes_uniform_partial.
 Print Assumptions C06_per_sender_bytes_refuted.
 Print Assumptions C06_pool_wide.
 Print Assumptions C06_excess_gone.
